@@ -40,7 +40,7 @@ def build(shape, name, final_snapshot=True):
                 def do(c, n=n):
                     for i in range(n):
                         v = c.mem_read(ptr.root[1], eng_.norm_path(base + (("idx", i),)), 64, False, "NA", "slot_read")
-                        c.observe(label, value=v, index=i)
+                        c.observe(label, value=v, index=i, block=ptr.root[1])
                     return UNIT
                 alts.append((ln == bv(n), do))
             return Fork(alts)
@@ -58,6 +58,7 @@ def build(shape, name, final_snapshot=True):
             def script(ts=ts):
                 for t in ts:
                     yield ("call", push_b, [bp, t])
+                    yield ("observe", "push_done", {"tag": t})
                 return None
             eng.run_script(i, f"t{i}:push*{n}", script)
             roles[i] = f"push {n}"
@@ -65,10 +66,18 @@ def build(shape, name, final_snapshot=True):
             eng.run_thread(i, f"t{i}:clear_with", clear_b, [bp, make_cb("cleared")])
             roles[i] = "clear"
         elif th[0] == "data":
-            eng.run_thread(i, f"t{i}:data_with", data_b, [bp, make_cb("snapshot")])
+            def script_d():
+                yield ("observe", "read_begin", {})
+                yield ("call", data_b, [bp, make_cb("snapshot")])
+                return None
+            eng.run_script(i, f"t{i}:data_with", script_d)
             roles[i] = "data"
         elif th[0] == "is_empty":
-            eng.run_thread(i, f"t{i}:is_empty", empty_b, [bp])
+            def script_e():
+                yield ("observe", "empty_begin", {})
+                r = yield ("call", empty_b, [bp])
+                return r
+            eng.run_script(i, f"t{i}:is_empty", script_e)
             roles[i] = "is_empty"
     fin = len(shape) + 1
     if final_snapshot:
@@ -170,12 +179,55 @@ def scenario(e3, shape, name, known):
     fabricated = z3.Or(*[z3.And(e.guard, z3.Not(z3.Or(*[pay["value"] == t for t in alltags]))) for e, pay in cleared + remaining + snapshot]) if alltags and (cleared or remaining or snapshot) else z3.BoolVal(False)
     k3, k4 = known_shapes(eng, sc, tids)
     not_known = z3.Not(k3)          # K4 (publish before link) is repaired: a loss through that mechanism is a violation again
+    clk = sc.clock
+    has_clear = any(th[0] == "clear" for th in shape)
+    dones = payloads(eng, "push_done")
+    begins = [e for e in eng.events if e.kind == "O" and e.label == "read_begin"]
+    ebegins = [e for e in eng.events if e.kind == "O" and e.label == "empty_begin"]
+    incomplete = []
+    if not has_clear:
+        for b in begins:
+            for de, dp in dones:
+                t = dp["tag"]
+                seen_t = z3.Or(*[z3.And(e.guard, pay["value"] == t) for e, pay in snapshot]) if snapshot else z3.BoolVal(False)
+                incomplete.append(z3.And(b.guard, de.guard, clk[de.id] < clk[b.id], z3.Not(seen_t)))
+    wrong_empty = []
+    if not has_clear:
+        for tid in tids:
+            if roles.get(tid) != "is_empty":
+                continue
+            for l in eng.leaves[tid]:
+                if l.status != "done":
+                    continue
+                said_empty = eng.as_bool(l.ret)
+                for b in ebegins:
+                    for de, dp in dones:
+                        wrong_empty.append(z3.And(l.taken(), said_empty, b.guard, de.guard, clk[de.id] < clk[b.id]))
+    # values of one block appear in push order: two values of the same pusher seen in the same block by one read are in ascending slot order
+    disorder = []
+    for obsl in (snapshot, cleared, remaining):
+        for i1, (e1, p1) in enumerate(obsl):
+            for e2, p2 in obsl[i1 + 1:]:
+                if e1.tid != e2.tid:
+                    continue
+                same_block = (p1["block"] == p2["block"]) if not (isinstance(p1["block"], int) and isinstance(p2["block"], int)) else z3.BoolVal(p1["block"] == p2["block"])
+                for ts in tags.values():
+                    for a_i, ta in enumerate(ts):
+                        for tb in ts[a_i + 1:]:
+                            # ta was pushed before tb by the same thread
+                            lo, hi = (p1, p2) if p1["index"] < p2["index"] else (p2, p1)
+                            if p1["index"] == p2["index"]:
+                                continue
+                            disorder.append(z3.And(e1.guard, e2.guard, same_block, lo["value"] == tb, hi["value"] == ta))
     race, extra = sc.race_condition()
     props = [
         ("no_value_lost", "a pushed value is neither handed to a clearing read nor visible afterwards (outside the known loss mechanism K3)", z3.And(lost, not_known), None),
         ("no_value_duplicated", "a pushed value is delivered twice", dup, None),
         ("no_value_fabricated_or_read_before_written", "a read yields a value that was never pushed (uninitialised slot)", fabricated, None),
         ("no_data_race_on_slots", "slot write and slot read unordered by happens-before", race, extra),
+        ("snapshot_sees_every_completed_push", "a snapshot read misses a value whose push had completed before the read began (no clear involved)", z3.Or(*incomplete) if incomplete else z3.BoolVal(False), None),
+        ("is_empty_is_truthful", "is_empty() returns true although a push had completed before the call began (no clear involved)", z3.Or(*wrong_empty) if wrong_empty else z3.BoolVal(False), None),
+        ("block_values_in_push_order", "two values pushed by one thread appear in one block in the opposite order", z3.Or(*disorder) if disorder else z3.BoolVal(False), None),
         ("no_panic", "push / read can panic", sc.reach("panic"), None),
     ]
     kn = {}
@@ -192,6 +244,9 @@ def scenario(e3, shape, name, known):
 SCEN_QUICK = [
     ([("push", 1), ("clear",)], "c05_push_clear", ["K3"]),
     ([("push", 2), ("data",)], "c05_push2_data", []),
+    ([("push", 2), ("clear",)], "c05_push2_clear", ["K3"]),
+    ([("push", 1), ("push", 1), ("data",)], "c05_push_push_data", []),
+    ([("push", 3), ("is_empty",)], "c05_push3_is_empty", []),
 ]
 SCEN_THOROUGH = [
     ([("push", 1), ("push", 1)], "c05_push_push", []),
@@ -208,7 +263,7 @@ def _worker(job):
     e3 = _e3.E3("C05")
     try:
         scenario(e3, shape, nm, known)
-    except sym.Unsupported as ex:
+    except _e3.ENC_ERRORS as ex:
         e3.error(nm, "MIR->SMT encoding of AtomicBucket / Block", ex)
     obs = []
     for o in e3.res.obligations:
@@ -229,12 +284,12 @@ def run(tier, seed, t0):
     # the MIR is dumped once, before the workers start (they re-use the dump of this run)
     _e3.program(["metrics-util"])
     obs, mods, funcs = [], set(), set()
-    if len(jobs) <= 2:
+    if len(jobs) <= 1:
         results = [_worker(j) for j in jobs]
     else:
         import concurrent.futures as cf
         import multiprocessing as mp
-        with cf.ProcessPoolExecutor(max_workers=min(5, len(jobs)), mp_context=mp.get_context("fork")) as ex:
+        with cf.ProcessPoolExecutor(max_workers=min(7, len(jobs)), mp_context=mp.get_context("fork")) as ex:
             results = list(ex.map(_worker, jobs))
     for rows, m_, f_ in results:
         for d in rows:
